@@ -468,7 +468,7 @@ type proc struct {
 }
 
 // nudge asks a stalled worker to report what it is doing and kills it if it
-// does not leave within 3 s.
+// does not leave within 10 s.
 func (p *proc) nudge() {
 	if p.cmd == nil || p.cmd.Process == nil {
 		return
@@ -476,7 +476,7 @@ func (p *proc) nudge() {
 	p.cmd.Process.Signal(syscall.SIGUSR1)
 	pr := p.cmd.Process
 	go func() {
-		time.Sleep(3 * time.Second)
+		time.Sleep(10 * time.Second)
 		pr.Kill()
 	}()
 }
@@ -498,6 +498,28 @@ func (p *proc) markVals() (ai, chunk int, seq uint64) {
 	w := atomic.LoadUint64((*uint64)(unsafe.Pointer(&p.mark[0])))
 	seq = atomic.LoadUint64((*uint64)(unsafe.Pointer(&p.mark[8])))
 	return int(w >> 32), int(uint32(w)), seq
+}
+
+// cpuSeconds returns the CPU time (user+system) the worker has used so far.
+func (p *proc) cpuSeconds() float64 {
+	if p.cmd == nil || p.cmd.Process == nil {
+		return 0
+	}
+	b, err := os.ReadFile(fmt.Sprintf("/proc/%d/stat", p.cmd.Process.Pid))
+	if err != nil {
+		return 0
+	}
+	st := string(b)
+	if i := strings.LastIndex(st, ")"); i >= 0 {
+		st = st[i+1:]
+	}
+	f := strings.Fields(st)
+	if len(f) < 13 {
+		return 0
+	}
+	ut, _ := strconv.ParseFloat(f[11], 64) // utime: field 14 of the file, 12th after the command name
+	stt, _ := strconv.ParseFloat(f[12], 64)
+	return (ut + stt) / 100
 }
 
 func (p *proc) kill() {
@@ -755,7 +777,7 @@ func (d *driver) runSuspect(t task, seq uint64, entry, input string, ceil time.D
 			res.outcome = "timeout"
 			res.stderr = p.stderr.String()
 			p.nudge()
-			wait := time.After(4 * time.Second)
+			wait := time.After(11 * time.Second)
 			for res.dump == "" {
 				select {
 				case m, ok := <-lines:
@@ -918,14 +940,22 @@ func (d *driver) judgeDeath(t task, seq uint64, hung bool, stuck *protoMsg, stde
 		}
 		n := 0
 		var last uptoResult
+		dump := ""
+		if stuck != nil && stuck.Seq == seq {
+			dump = stuck.Msg
+		}
 		for i := 0; i < 3; i++ {
 			last = d.runSuspect(t, seq, "", "", d.ceil)
 			if last.outcome != "timeout" {
 				break
 			}
+			if hangSite(last.dump) != "" || dump == "" {
+				dump = last.dump
+			}
 			n++
 		}
 		if n == 3 {
+			last.dump = dump
 			key := hangKey(last.entry, last.dump)
 			d.violation(a, t, "hang", key, fmt.Sprintf("%s did not return within %s on input %s (first seen in the sweep, then confirmed on 3 separate isolated re-runs)\n  %s", last.entry, d.ceil, last.input, strings.ReplaceAll(stackOfCall(last.dump), "\n", "\n  ")), last.entry, last.input)
 			d.mu.Lock()
@@ -1044,6 +1074,7 @@ func (d *driver) run() {
 					defer tk.Stop()
 					var last uint64 = ^uint64(0)
 					lastChange := time.Now()
+					cpuAtChange := p.cpuSeconds()
 					for {
 						select {
 						case <-stop:
@@ -1051,11 +1082,13 @@ func (d *driver) run() {
 						case <-tk.C:
 							_, _, s := p.markVals()
 							if s != last {
-								last, lastChange = s, time.Now()
-							} else if time.Since(lastChange) > d.ceil || (time.Since(lastChange) > reducedCeiling && d.anyHang()) {
+								last, lastChange, cpuAtChange = s, time.Now(), p.cpuSeconds()
+							} else if time.Since(lastChange) > d.ceil || (time.Since(lastChange) > reducedCeiling && d.anyHang() && p.cpuSeconds()-cpuAtChange > 0.8*reducedCeiling.Seconds()) {
 								// after the first confirmed hang of the run, stalls are
-								// looked at after the reduced ceiling; a stall at a new
-								// site is still confirmed with the full ceiling
+								// looked at after the reduced ceiling (which only counts when
+								// the worker really burned that much CPU on the call: on an
+								// overloaded machine a starved worker is not a stalled one);
+								// a stall at a new site is still confirmed with the full ceiling
 								p.hung.Store(true)
 								p.nudge()
 								return
